@@ -167,3 +167,20 @@ def _f10(f, pid, case, clause, ctx):
         return False
     return (case.get("simp1") == case.get("simp2") and case.get("low1") == case.get("low2")
             and case.get("opt3") == case.get("opt2") and case.get("nodes2", 10 ** 9) <= case.get("nodes1", 0))
+
+
+@matcher("setitem_int_then_reversed_slice")
+def _f20(f, pid, case, clause, ctx):
+    def bad(idx):
+        seen_int = False
+        for e in idx:
+            if e["k"] == "int":
+                seen_int = True
+            elif e["k"] == "slice" and e["step"] != 99 and e["step"] < 0 and seen_int:
+                return True
+        return False
+
+    if not any(a.get("a") == "SetItem" and bad(a["idx"]) for a in case.get("prog", [])):
+        return False
+    txt = case.get("detail", "") + case.get("err", "") + str(case.get("opt_err", "")) + str(case.get("raw_err", ""))
+    return "IndexError" in txt and "tuple index out of range" in txt
